@@ -88,10 +88,27 @@ SPEC = [
                 'DATA_VALUES_NEST_LEVEL_0', 'DATA_VALUES_NEST_LEVEL_1', 'DATA_VALUES_NEST_LEVEL_2',
                 'DATA_VALUES_NEST_LEVEL_4'],
      'funcs': {'process_embedded_query_expr': {'params': {'input_string': 'str'}}}},
-    # ---- w5-smallsrc: small self-contained functions --------------------------------------------
-    {'module': 'encoder', 'file': 'pybufrkit/encoder.py',
-     'funcs': {'nbits_for_uint': {'params': {'x': 'int'}}}},
 ]
+
+# ---- w5-smallsrc: small self-contained functions.  `'compiler': 'small'` selects the subclass
+# harness/py2lean_small.py:SmallCompiler (constructs listed in notes/Tie.md, "Constructs added for the small
+# functions"); `'locals'` declares, for a local variable that is re-bound to values of different types, its
+# type slots in order (each slot is its own field of the record of locals; Lean type-checks the choice).
+SPEC += [
+    {'module': 'encoder', 'file': 'pybufrkit/encoder.py',
+     'funcs': {'nbits_for_uint': {'params': {'x': 'int'}, 'compiler': 'small'}}},
+]
+
+
+def _spec_of(module):
+    return [s for s in SPEC if s['module'] == module][0]
+
+
+_spec_of('mdquery').setdefault('classes', {}).update({
+    'MetadataExprParser': {'attrs': {}, 'methods': {
+        'parse': {'params': {'metadata_expr': 'str'}, 'compiler': 'small',
+                  'locals': {'section_index': ['str', 'opt[int]']}}}},
+})
 
 LEAN_KEYWORDS = set('''at from in do then else if fun end open instance structure where with match let have show by
 theorem def example import namespace section variable universe class inductive mutual deriving for unless return
@@ -138,7 +155,7 @@ def parse_type(s):
     s = s.strip()
     if s in ('int', 'nat', 'bool', 'str', 'bytes', 'obj'):
         return (s,)
-    m = re.match(r'(list|dict|tuple|tree)\[(.*)\]$', s)
+    m = re.match(r'(list|dict|tuple|tree|opt)\[(.*)\]$', s)
     if not m:
         raise ValueError('bad type %r' % s)
     parts, depth, cur = [], 0, ''
@@ -179,6 +196,8 @@ def lean_type(t, top=True):
         r = 'List (%s × %s)' % (lean_type(t[1]), lean_type(t[2]))
     elif k == 'tuple':
         r = ' × '.join(lean_type(x, False) for x in t[1:])
+    elif k == 'opt':      # `None` or a value of type T
+        r = 'Option ' + lean_type(t[1], False)
     else:
         raise ValueError(t)
     return r if top else '(' + r + ')'
@@ -197,6 +216,8 @@ def default_value(t):
         return '{}'
     if k == 'tree':
         return '(.list [])'
+    if k == 'opt':
+        return 'none'
     if k == 'tuple':
         return '(' + ', '.join(default_value(x) for x in t[1:]) + ')'
     raise ValueError(t)
@@ -588,7 +609,7 @@ class ExprCompiler(object):
 
     def e_Subscript(self, e):
         if isinstance(e.slice, ast.Slice):
-            return self.small_slice(e)          # w5-smallsrc block below
+            self.bad(e, 'slicing is not in the table')
         a, i = self.expr(e.value), self.expr(e.slice)
         ka = self.kind(a, e.value)
         if ka == 'dict':
@@ -665,9 +686,6 @@ class ExprCompiler(object):
                     self.bad(e, 'recursive call with a different number of arguments')
                 args = [self.coerce(self.to_int(self.expr(a)), t, e) for a, t in zip(e.args, self.params.values())]
                 return self.lift(args, lambda c: '(%s fuel %s)' % (self.lean_name, ' '.join(c)), self.ret_type, result_raises=True)
-            r = self.small_call_name(e, f)      # w5-smallsrc block below
-            if r is not None:
-                return r
             self.bad(e, 'call of %s is not in the table' % f.id)
         if isinstance(f, ast.Attribute):
             if f.attr == 'format' and isinstance(f.value, ast.Constant) and isinstance(f.value.value, str):
@@ -680,69 +698,8 @@ class ExprCompiler(object):
                 return self.lift([recv, xs], lambda c: '(Py.join %s %s)' % (c[0], c[1]), STR)
             if k == 'str' and f.attr in ('strip', 'lstrip', 'rstrip') and not e.args and not e.keywords:
                 return self.lift([recv], lambda c: '(Py.%s %s)' % (f.attr, c[0]), STR)
-            r = self.small_call_method(e, f, recv, k)   # w5-smallsrc block below
-            if r is not None:
-                return r
             self.bad(e, 'method call .%s on a %s is not in the table' % (f.attr, k))
         self.bad(e, 'call form is not in the table')
-
-    # ---------------------------------------------------------------------------------------------
-    # w5-smallsrc: constructs of the small self-contained functions (notes/Tie.md, "Constructs added for
-    # the small functions").  Each handler returns an Ex, or None when the form is not one of its own.
-    def small_slice(self, e):
-        """`xs[a:b]`, `xs[a:]`, `xs[:b]`, `xs[:]` on str / bytes / list (no step)"""
-        sl = e.slice
-        if sl.step is not None:
-            self.bad(e, 'slice with a step is not in the table')
-        a = self.expr(e.value)
-        ka = self.kind(a, e.value)
-        if ka not in ('str', 'bytes', 'list'):
-            self.bad(e, 'slice of a %s' % ka)
-        lo = self.expr(sl.lower) if sl.lower is not None else None
-        hi = self.expr(sl.upper) if sl.upper is not None else None
-        for b, nd in ((lo, sl.lower), (hi, sl.upper)):
-            if b is not None and self.kind(b, nd) not in ('int', 'nat'):
-                self.bad(e, 'slice bound of type %s' % self.kind(b, nd))
-        if hi is None and lo is not None and prune(lo.ty) == NAT:
-            # xs[n:] with n known to be non-negative: drop the first n items
-            return self.lift([a, lo], lambda c: '(List.drop %s %s)' % (c[1], c[0]), a.ty)
-        parts = [a] + [self.to_int(b) for b in (lo, hi) if b is not None]
-
-        def build(c):
-            i = 1
-            los = his = 'none'
-            if lo is not None:
-                los = '(some %s)' % c[i]
-                i += 1
-            if hi is not None:
-                his = '(some %s)' % c[i]
-            return '(Py.slice %s %s %s)' % (c[0], los, his)
-        return self.lift(parts, build, a.ty)
-
-    def one_char_literal(self, node):
-        if isinstance(node, ast.Constant) and isinstance(node.value, str) and len(node.value) == 1:
-            try:
-                return lean_char(node.value)
-            except ValueError:
-                return None
-        return None
-
-    def small_call_name(self, e, f):
-        if f.id == 'bin' and len(e.args) == 1 and not e.keywords:
-            a = self.expr(e.args[0])
-            if self.kind(a, e) not in ('int', 'nat'):
-                self.bad(e, 'bin() of a %s' % self.kind(a, e))
-            a = self.to_int(a)
-            return self.lift([a], lambda c: '(Py.bin %s)' % c[0], STR)
-        return None
-
-    def small_call_method(self, e, f, recv, k):
-        if k == 'str' and f.attr == 'count' and len(e.args) == 1 and not e.keywords:
-            ch = self.one_char_literal(e.args[0])
-            if ch is None:
-                self.bad(e, 'str.count() of something that is not a one-character literal')
-            return self.lift([recv], lambda c: '(List.count %s %s)' % (ch, c[0]), NAT)
-        return None
 
     def format_call(self, e, fmt):
         """'literal {} {:06d}'.format(a, b): expanded at translation time"""
@@ -1441,9 +1398,10 @@ class ModuleGen(object):
                 raise Py2LeanUnsupported(self.mod.relpath, 0, 'function %s not found exactly once' % fname)
             node = nodes[0]
             params = {p: parse_type(t) for p, t in fs['params'].items()}
-            fc = FuncCompiler(self.mod, self, node, lean_ident(fname), params,
-                              returns=parse_type(fs['returns']) if fs.get('returns') else None,
-                              recursive=bool(fs.get('recursive')))
+            fc = compiler_class(fs)(self.mod, self, node, lean_ident(fname), params,
+                                    returns=parse_type(fs['returns']) if fs.get('returns') else None,
+                                    recursive=bool(fs.get('recursive')))
+            fc.spec = fs
             a, b, _ = self.mod.src(node)
             doc = '/-- %s:%d-%d  `def %s` -/' % (self.mod.relpath, a, b, fname)
             text, raises = fc.render(doc)
@@ -1465,7 +1423,9 @@ class ModuleGen(object):
                     raise Py2LeanUnsupported(self.mod.relpath, cnode, 'method %s.%s not found exactly once' % (cname, mname))
                 node = methods[mname][0]
                 params = {p: parse_type(t) for p, t in ms.get('params', {}).items()}
-                fc = FuncCompiler(self.mod, self, node, '%s.%s' % (cname, lean_ident(mname)), params, self_attrs=attrs)
+                fc = compiler_class(ms)(self.mod, self, node, '%s.%s' % (cname, lean_ident(mname)), params, self_attrs=attrs,
+                                        returns=parse_type(ms['returns']) if ms.get('returns') else None)
+                fc.spec = ms
                 a, b, _ = self.mod.src(node)
                 doc = '/-- %s:%d-%d  `%s.%s` -/' % (self.mod.relpath, a, b, cname, mname)
                 text, raises = fc.render(doc)
@@ -1497,6 +1457,14 @@ class ModuleGen(object):
             it['blob'] = self.mod.blob
             it['gen_module'] = gen_module_name(spec)
         return '\n'.join(head + body + tail) + '\n'
+
+
+def compiler_class(fs):
+    """the statement compiler of one SPEC entry: FuncCompiler, or its extension for the small functions"""
+    if fs.get('compiler') == 'small':
+        from harness import py2lean_small
+        return py2lean_small.SmallCompiler
+    return FuncCompiler
 
 
 def gen_module_name(spec):
